@@ -19,7 +19,7 @@ class Extracted:
         self.lines = (node.lineno, node.end_lineno)
 
     def info(self):
-        return {'file': os.path.join(REPO, self.relpath), 'qualname': self.qualname,
+        return {'file': _abspath(self.relpath), 'qualname': self.qualname,
                 'lines': list(self.lines), 'sha256': self.sha256}
 
     def body(self):
@@ -38,8 +38,13 @@ _cache = {}
 OVERRIDES = {}      # relpath -> source text (in-memory mutants for the self-test of the generator only)
 
 
+def _abspath(relpath):
+    """'ABS:/path' names a file outside the repository (stdlib source of the interpreter that runs the library)."""
+    return relpath[4:] if relpath.startswith('ABS:') else os.path.join(REPO, relpath)
+
+
 def parse_file(relpath):
-    path = os.path.join(REPO, relpath)
+    path = _abspath(relpath)
     if relpath in OVERRIDES:
         src = OVERRIDES[relpath]
         return src, ast.parse(src, filename=path)
